@@ -27,7 +27,7 @@ let parse_op (name : string) (a : int list) : nat op =
   | "reset" -> SReset (a0 ()) | "sclone" -> SClone (a0 ()) | "sclone_reset" -> SCloneReset (a0 ())
   | "sdrop" -> SDrop (a0 ())
   | "clone" -> HClone | "drop_owner" -> HDropOwner | "downgrade" -> HDowngrade | "upgrade" -> HUpgrade
-  | "drop_weak" -> HDropWeak | "into_shared" -> HIntoShared | "counts" -> HCounts
+  | "drop_weak" -> HDropWeak | "clone_weak" -> HCloneWeak | "into_shared" -> HIntoShared | "counts" -> HCounts
   | _ -> failwith ("bad op " ^ name)
 
 let show_out (name : string) (r : nat out) : string =
